@@ -1,12 +1,43 @@
 #!/bin/bash
-# seed_matrix.sh <lane>: runs every seeded change against the quick check of its property (two lanes share the list).
+# seed_matrix.sh <lane>: runs every seeded change against the harnesses that encode the code it touches
+# (targeted, `--only`), or against the whole quick check of its property where no harness encodes that code.
+# Two lanes (0 / 1) share the list.
 cd /verif
 LANE=${1:-0}
-SEEDS="C12-a:C12 C13-a:C13 C14-a:C14 C15-a:C15 C07-a:C07 C17-a:C17 C03-a:C03 C19-a:C19 C11-a:C11 C06-a:C06 C20-a:C20 C01-a:C01 C05-a:C05 C02-a:C02 C08-a:C08 C01-b:C01 C02-b:C02 C03-b:C03 C05-b:C05 C06-b:C06 C07-b:C07 C08-b:C08 C11-b:C11 C12-b:C12 C13-b:C13 C14-b:C14 C15-b:C15 C17-b:C17 C19-b:C19 C20-b:C20 C11-b:C09 C02-b:C20 C17-a:C20 C05-b:C03 C01-a:C08"
+L=(
+"C12-a C12 c12_bol_eol_m,a_bol_hasbol_m_n2,c12_bol_eol_plain"
+"C13-a C13 s_nesting_total_n5"
+"C14-a C14"
+"C15-a C15"
+"C07-a C07 f_bracket_n6,f_piece_xpath"
+"C17-a C17 f_piece_xsd,f_escape_xsd_n7,e_flags_xsd_n3"
+"C03-a C03 c_reset_bol_n2,c_reset_atom_n2,c_capture_n2"
+"C19-a C19 c_reset_atom_n2,c_backref_n3,c_capture_two_activations"
+"C11-a C11 f_firstset_letter,f_firstset_caseless"
+"C06-a C06 d_reluctant_repeat_eol_body,d_reluctant_repeat_bol_body,d_force_progress"
+"C20-a C20 b_greedyfixed_order_len2,b_greedyfixed_n2"
+"C05-a C05"
+"C02-b C02 f_piece_xpath"
+"C03-b C03 c_clear_beyond"
+"C05-b C03 c_clear_beyond"
+"C06-b C06"
+"C07-b C07"
+"C11-b C11 g_class_base_i"
+"C13-b C13 a_prefix3_scan_n4"
+"C14-b C14"
+"C15-b C15"
+"C17-b C17 f_escape_xsd_n7,f_piece_xsd"
+"C19-b C19 c_capture_two_activations,c_capture_n2"
+"C20-b C20 f_piece_xpath,a_class_single_n2,f_no_ambiguity_nullable_repeat_greedy"
+"C12-b C12 a_hasbol_atom_m_n2,a_bol_hasbol_m_n2,c12_bol_eol_m"
+"C01-b C01 a_hasbol_atom_m_n2"
+"C08-b C08 a_hasbol_atom_m_n2,a_bol_hasbol_m_n2"
+)
 i=0
-for sp in $SEEDS; do
+for e in "${L[@]}"; do
   if [ $((i % 2)) -eq "$LANE" ]; then
-    VERIF_JOBS=7 ./selftest/run_seed.sh seeded/${sp%%:*} ${sp##*:}
+    set -- $e
+    VERIF_JOBS=6 ./selftest/run_seed.sh seeded/$1 $2 ${3:-}
   fi
   i=$((i+1))
 done
